@@ -42,6 +42,32 @@ func drawStar(t *rapid.T, cx, cy int64, rmin, rmax float64, label string) Path {
 	return p
 }
 
+// drawComb draws a rectilinear comb (a base bar with 1-4 teeth of varying height), counter-
+// clockwise, roughly of radius 2*scale around (cx,cy); simple by construction. Its hole-free
+// core around the centre (the bar) is what a star hole may be placed in.
+func drawComb(t *rapid.T, cx, cy int64, scale float64) Path {
+	s := int64(scale)
+	teeth := rapid.IntRange(1, 4).Draw(t, "teeth")
+	w := 4 * s / int64(2*teeth+1) // width of a tooth / gap
+	if w < 2 {
+		w = 2
+	}
+	x0, yb := cx-2*s, cy-s // bar from yb to yb+s (bar height s), teeth above it
+	p := Path{{X: x0, Y: yb}, {X: x0 + int64(2*teeth+1)*w, Y: yb}}
+	x := x0 + int64(2*teeth+1)*w
+	top := yb + s
+	p = append(p, P{X: x, Y: top})
+	for i := teeth - 1; i >= 0; i-- {
+		h := rapid.Int64Range(s/4+1, s).Draw(t, "toothHeight")
+		// gap to the right of the tooth, then the tooth
+		p = append(p, P{X: x - w, Y: top}, P{X: x - w, Y: top + h}, P{X: x - 2*w, Y: top + h}, P{X: x - 2*w, Y: top})
+		x -= 2 * w
+		_ = i
+	}
+	p = append(p, P{X: x0, Y: top})
+	return p
+}
+
 func pathIsSimple(p Path) bool {
 	n := len(p)
 	if n < 3 {
@@ -93,6 +119,9 @@ func drawSimpleSet(t *rapid.T, scale float64, reversed bool) Paths {
 		cx := int64(k) * int64(6*scale)
 		cy := rapid.Int64Range(-int64(scale), int64(scale)).Draw(t, "cy")
 		outer := drawStar(t, cx, cy, scale, 2*scale, "outer")
+		if rapid.IntRange(0, 2).Draw(t, "comb") == 0 {
+			outer = drawComb(t, cx, cy, scale)
+		}
 		if !pathIsSimple(outer) || kit.Area2(outer).Sign() <= 0 {
 			outer = Path{{X: cx - int64(scale), Y: cy - int64(scale)}, {X: cx + int64(scale), Y: cy - int64(scale)}, {X: cx + int64(scale), Y: cy + int64(scale)}, {X: cx - int64(scale), Y: cy + int64(scale)}}
 		}
